@@ -765,4 +765,41 @@ def tag_ident(ctx, repo):
     ctx.ob("TAGID", mod.rel + ":<module>", f"tagToXML {a}->{ra} ; xmlToTag {b}->{rb}", ok, "" if ok else "OS/2 <-> OS_2 special case is not mirrored")
 
 
-ALL = [f5_ps_operands, f5_uint32var, f5_255ushort, f5_base128, f5_points, f5_deltas, f5_subr_bias, f6_tables, f22_fixed_tools, f22_eexec, f22_time, f22_sstruct, tag_ident]
+
+
+def ttprogram_push(ctx, repo):
+    ctx.rule("F5-ttpush", "TrueType push operands: the assembler accepts words in the int16 range and bytes in the uint8 range and emits big-endian halves; the disassembler rebuilds the word and sign-extends exactly from 0x8000 with a wrap of 0x10000", floor=6)
+    m = repo.mod("ttLib/tables/ttProgram.py")
+    env = module_env(repo, m)
+    a = m.func("Program._assemble")
+    d = m.func("Program._disassemble")
+    wr = []
+    by = []
+    for n in ast.walk(a.node):
+        if isinstance(n, ast.Assert) and isinstance(n.test, ast.Compare) and len(n.test.ops) == 2 and norm(n.test.comparators[0]) == "value":
+            lo, hi = try_fold(n.test.left, env), try_fold(n.test.comparators[1], env)
+            if isinstance(n.test.ops[1], ast.Lt):
+                hi -= 1
+            (wr if lo < 0 else by).append((lo, hi))
+    ok = bool(wr) and all(r == code_range("h") for r in wr)
+    ctx.ob("F5-ttpush", a.where, f"word operands asserted in {sorted(set(wr))} == int16", ok, "" if ok else "assembler accepts words the bytecode cannot hold (or rejects valid ones)")
+    ok = bool(by) and all(r == code_range("B") for r in by)
+    ctx.ob("F5-ttpush", a.where, f"byte operands asserted in {sorted(set(by))} == uint8", ok)
+    halves = sorted({norm(c.args[0]) for c in calls_in(a.node) if call_name(c) == "push" and "value" in norm(c.args[0]) and norm(c.args[0]) != "value"})
+    ok = halves == ["value & 255", "value >> 8 & 255"]
+    ctx.ob("F5-ttpush", a.where, f"words emitted as {halves}", ok, "" if ok else "word is not emitted as big-endian high/low byte")
+    reb = [norm(n.value) for n in ast.walk(d.node) if isinstance(n, ast.Assign) and norm(n.targets[0]) == "value" and "<<" in norm(n.value)]
+    ok = reb == ["bytecode[i] << 8 | bytecode[i + 1]"]
+    ctx.ob("F5-ttpush", d.where, f"word rebuilt as {reb}", ok)
+    sx = [(norm(n.test), [norm(s) for s in n.body]) for n in ast.walk(d.node) if isinstance(n, ast.If) and norm(n.test).startswith("value >")]
+    ok = len(sx) == 1 and try_fold(ast.parse(sx[0][0].split(" ", 2)[2], mode="eval").body) == 0x8000 and sx[0][0].split(" ")[1] == ">=" and sx[0][1] == ["value = value - 65536"]
+    ctx.ob("F5-ttpush", d.where, f"sign extension: {sx}", ok, "" if ok else "sign extension boundary/wrap differs from int16 (a pushed -32768 or 32767 is dumped wrongly)")
+    steps = [norm(n.value) for n in ast.walk(d.node) if isinstance(n, ast.Assign) and norm(n.targets[0]) == "i" and norm(n.value) in ("i + 2", "i + 1")]
+    ctx.ob("F5-ttpush", d.where, f"cursor advances {sorted(set(steps))}", "i + 2" in steps and "i + 1" in steps)
+    # optimiser: byte/word split of PUSH[ ] args
+    tests = sorted({norm(n) for n in ast.walk(a.node) if isinstance(n, ast.Compare) and len(n.ops) == 2 and "args[" in norm(n.comparators[0])})
+    ok = bool(tests) and all(t.startswith("0 <= args[") and t.endswith("<= 255") for t in tests)
+    ctx.ob("F5-ttpush", a.where, f"PUSH[ ] optimiser classifies bytes with {tests}", ok)
+
+
+ALL = [ttprogram_push, f5_ps_operands, f5_uint32var, f5_255ushort, f5_base128, f5_points, f5_deltas, f5_subr_bias, f6_tables, f22_fixed_tools, f22_eexec, f22_time, f22_sstruct, tag_ident]
